@@ -8,6 +8,7 @@
 
 mod conc;
 mod enc;
+mod helpers;
 mod json;
 mod level;
 mod out;
@@ -62,6 +63,7 @@ fn main() {
         }
         "json" => json::run(),
         "text" => text::run(),
+        "helpers" => helpers::run(),
         other => {
             eprintln!("unknown subcommand {other}");
             std::process::exit(2);
